@@ -457,6 +457,39 @@ func genOutbox(r *rng, ty string, k int) *scenario {
 	default: // Travel etc: default callback
 		body = jmap{"@context": asCtx, "type": ty, "actor": alice, "to": pick(r, remoteActors)}
 	}
+	// embedded objects carrying hidden recipients of their own, on activities that may have none themselves
+	if ty != "Note" && ty != "Create" && ty != "CreateBig" && r.chance(1, 2) {
+		embed := func(x interface{}) interface{} {
+			switch o := x.(type) {
+			case string:
+				if r.chance(1, 2) && ty != "Undo" {
+					return jmap{"type": "Note", "id": o, "bto": pick(r, remoteActors), "bcc": []interface{}{pick(r, remoteActors), actorID(remote, "erin")}}
+				}
+			case jmap:
+				if r.chance(1, 2) {
+					o["bto"] = pick(r, remoteActors)
+				}
+				if r.chance(1, 2) {
+					o["bcc"] = pick(r, remoteActors)
+				}
+				return o
+			}
+			return x
+		}
+		switch o := body["object"].(type) {
+		case []interface{}:
+			for i := range o {
+				o[i] = embed(o[i])
+			}
+		case nil:
+		default:
+			body["object"] = embed(o)
+		}
+		if r.chance(1, 2) {
+			delete(body, "bto")
+			delete(body, "bcc")
+		}
+	}
 	if r.chance(1, 12) && ty != "Note" {
 		delete(body, "object")
 	}
